@@ -21,6 +21,7 @@
 """SSH connection handlers"""
 
 import asyncio
+import errno
 import functools
 import getpass
 import inspect
@@ -3437,6 +3438,12 @@ class SSHConnection(SSHPacketHandler, asyncio.Protocol):
                          listen_path, dest_path)
 
         try:
+            if listen_path in self._local_listeners:
+                # Listening again would take the path away from the
+                # listener which is already forwarding it
+                raise OSError(errno.EADDRINUSE,
+                              f'{listen_path} is already being forwarded')
+
             listener = await create_unix_forward_listener(self, self._loop,
                                                           tunnel_connection,
                                                           listen_path)
@@ -5524,6 +5531,12 @@ class SSHClientConnection(SSHConnection):
                          listen_path, (dest_host, dest_port))
 
         try:
+            if listen_path in self._local_listeners:
+                # Listening again would take the path away from the
+                # listener which is already forwarding it
+                raise OSError(errno.EADDRINUSE,
+                              f'{listen_path} is already being forwarded')
+
             listener = await create_unix_forward_listener(self, self._loop,
                                                           tunnel_connection,
                                                           listen_path)
